@@ -119,6 +119,8 @@ impl Drop for TlVal {
 pub struct LzVal {
     k: usize,
     id: usize,
+    /// data that lives inside the instance and is written by its initialiser
+    own: US<loom::cell::UnsafeCell<usize>>,
 }
 impl LzVal {
     fn new(k: usize) -> LzVal {
@@ -131,7 +133,9 @@ impl LzVal {
             // a scheduling point inside the initialiser: another thread may race on first access
             loom::thread::yield_now();
         }
-        LzVal { k, id }
+        let own = US::new(loom::cell::UnsafeCell::new(0usize));
+        own.get().with_mut(|_| ());
+        LzVal { k, id, own }
     }
 }
 impl Drop for LzVal {
@@ -161,10 +165,10 @@ fn tl_nest(outer: &str, inner: &str) -> usize {
         n => panic!("harness: unknown thread-local {:?}", n),
     }
 }
-fn lz_get(name: &str) -> usize {
+fn lz_ref(name: &str) -> &'static LzVal {
     match name {
-        "Z0" => LZ0.id,
-        "Z1" => LZ1.id,
+        "Z0" => &*LZ0,
+        "Z1" => &*LZ1,
         n => panic!("harness: unknown lazy static {:?}", n),
     }
 }
@@ -383,6 +387,7 @@ fn run_thread(sh: SArc<Sh>, t: usize) {
     // guards are declared after `sh` so that they are dropped before it
     // handles owned by this thread's frame (dropped when the frame unwinds)
     let mut held: HashMap<String, Slot> = HashMap::new();
+    let mut lzrefs: HashMap<String, &'static LzVal> = HashMap::new();
     let mut mg: HashMap<usize, MG> = HashMap::new();
     let mut rg: HashMap<usize, RG> = HashMap::new();
     let mut wg: HashMap<usize, WG> = HashMap::new();
@@ -420,9 +425,10 @@ fn run_thread(sh: SArc<Sh>, t: usize) {
             "await" => {
                 let a = sh.atoms[oi()].get();
                 let o = ord(&ins.ord);
+                let want = ins.v as usize;
                 let v = loop {
                     let v = a.load(o);
-                    if v != 0 {
+                    if (want == 0 && v != 0) || (want != 0 && v == want) {
                         break v;
                     }
                     if ins.k == "spin" {
@@ -438,6 +444,9 @@ fn run_thread(sh: SArc<Sh>, t: usize) {
             "uld" => res = Some(unsafe { sh.atoms[oi()].get().unsync_load() } as i64),
             "rd" => sh.cells[oi()].get().with(|_| ()),
             "wr" => sh.cells[oi()].get().with_mut(|_| ()),
+            // usage errors loom detects with an assertion (C06: must fail the model, not abort the process)
+            "wrrd" => sh.cells[oi()].get().with_mut(|_| sh.cells[oi()].get().with(|_| ())),
+            "rdwr" => sh.cells[oi()].get().with(|_| sh.cells[oi()].get().with_mut(|_| ())),
             "spawn" => {
                 let u = ins.v as usize;
                 let sh2 = sh.clone();
@@ -649,7 +658,13 @@ fn run_thread(sh: SArc<Sh>, t: usize) {
             "tforget" => std::mem::forget(sh.trks.get().remove(&ins.o)),
             "tlwith" => res = Some(tl_bump(&ins.o) as i64),
             "tlnest" => res = Some(tl_nest(&ins.o, &ins.o2) as i64),
-            "lzget" => res = Some(lz_get(&ins.o) as i64),
+            "lzget" => {
+                let v = lz_ref(&ins.o);
+                lzrefs.insert(ins.o.clone(), v);
+                res = Some(v.id as i64);
+            }
+            // read the instance's own cell through the reference the last lzget returned
+            "lzread" => lzrefs.get(&ins.o).expect("harness: lzread without lzget").own.get().with(|_| ()),
             "blockon" => {
                 let polls = SArc::new(StdAtomicUsize::new(0));
                 let f = Fut { sh: sh.clone(), aw: oi(), flag: sh.idx[&ins.o2], ord: ord(&ins.ord), reg_first: ins.k == "reg-check", polls: polls.clone() };
